@@ -932,7 +932,121 @@ func shortScenario(res *vlib.Result, sc redialScript) {
 
 // ---- section driver -----------------------------------------------------------------------------
 
+// ---- a consumer that does not read --------------------------------------------------------
+
+// floodCarrier delivers more packets than the receive queue holds and then
+// waits; its write side fails from the first packet on.
+type floodCarrier struct {
+	n      int32
+	closed chan struct{}
+	once   sync.Once
+}
+
+func (c *floodCarrier) ReadFrom(p []byte) (int, net.Addr, error) {
+	select {
+	case <-c.closed:
+		return 0, nil, errCarrierClosed
+	default:
+	}
+	if atomic.AddInt32(&c.n, 1) <= 2300 {
+		return copy(p, mkPkt('R', 1, 1, 32)), fakeAddr("remote"), nil
+	}
+	<-c.closed
+	return 0, nil, errCarrierClosed
+}
+func (c *floodCarrier) WriteTo(p []byte, addr net.Addr) (int, error) { return 0, errWriteBroken }
+func (c *floodCarrier) Close() error                                 { c.once.Do(func() { close(c.closed) }); return nil }
+func (c *floodCarrier) LocalAddr() net.Addr                          { return fakeAddr("carrier-local") }
+func (c *floodCarrier) SetDeadline(t time.Time) error                { return nil }
+func (c *floodCarrier) SetReadDeadline(t time.Time) error            { return nil }
+func (c *floodCarrier) SetWriteDeadline(t time.Time) error           { return nil }
+
+// stalledReceiver: nobody calls ReadFrom on the redialing connection (a KCP
+// reader that lags), every carrier delivers more than the receive queue holds,
+// and every carrier's write side fails. After R redials the earlier carriers
+// are closed and no goroutine of theirs may be left.
+func stalledReceiver(res *vlib.Result) {
+	res.Eval(1)
+	const R = 14
+	var mu sync.Mutex
+	var carriers []*floodCarrier
+	hold := make(chan struct{})
+	dial := func(ctx context.Context) (net.PacketConn, error) {
+		mu.Lock()
+		k := len(carriers)
+		mu.Unlock()
+		if k >= R {
+			select {
+			case <-hold:
+			case <-ctx.Done():
+			}
+			return nil, errDial
+		}
+		c := &floodCarrier{closed: make(chan struct{})}
+		mu.Lock()
+		carriers = append(carriers, c)
+		mu.Unlock()
+		return c, nil
+	}
+	base := countFrames("turbotunnel.(*RedialPacketConn).exchange")
+	conn := turbotunnel.NewRedialPacketConn(fakeAddr("local"), fakeAddr("remote"), dial)
+	stop := make(chan struct{})
+	go func() { // the application keeps sending: each packet meets the current carrier's broken write side
+		for {
+			select {
+			case <-stop:
+				return
+			default:
+			}
+			conn.WriteTo(mkPkt('W', 1, 1, 24), fakeAddr("remote"))
+			time.Sleep(2 * time.Millisecond)
+		}
+	}()
+	allDialled := vlib.WaitFor(60*time.Second, func() bool { mu.Lock(); defer mu.Unlock(); return len(carriers) >= R })
+	// the goroutines of closed carriers end when they notice: wait for the state, judge what is left after 20 s
+	vlib.WaitFor(20*time.Second, func() bool { return countFrames("turbotunnel.(*RedialPacketConn).exchange")-base <= 3 })
+	closedCarriers := 0
+	mu.Lock()
+	for _, c := range carriers {
+		select {
+		case <-c.closed:
+			closedCarriers++
+		default:
+		}
+	}
+	mu.Unlock()
+	left := countFrames("turbotunnel.(*RedialPacketConn).exchange") - base
+	close(stop)
+	close(hold)
+	conn.Close()
+	rec := map[string]interface{}{"case": "leak/stalled-receiver", "redials": R, "carriers_closed": closedCarriers, "goroutines_in_exchange_after_the_redials": left}
+	if !allDialled {
+		res.Inconcl("leak/stalled-receiver: fewer than 14 carriers were dialled within 60 s")
+		return
+	}
+	res.Obs("stalled_receiver_redials", R)
+	// the carrier in use may have its reader and writer; the R-1 earlier ones nothing
+	if left > 3 {
+		res.Violatef("leak:goroutine-per-redial:stalled-receiver", rec, "nobody reads from the connection (receive queue full): after %d redials %d goroutines are inside exchange (at most the current carrier's two), %d carriers closed", R, left, closedCarriers)
+	} else {
+		res.Distinct("leak/stalled-receiver")
+	}
+}
+
+// countFrames counts goroutines with a frame containing s.
+func countFrames(s string) int {
+	n := 0
+	for _, g := range vlib.ParseDump(vlib.DumpAll()) {
+		if g.HasFrame(s) {
+			n++
+		}
+	}
+	return n
+}
+
 func runRedial(res *vlib.Result, root *vlib.Rand) {
+	stalledReceiver(res)
+	res.RequireObs("stalled_receiver_redials", 1)
 	// 1. leak rule A5, one run per enumerated failure order
 	leakScenario(res, "read-first", "", false, func(i int) carrierScript { return carrierScript{Order: ordRead, NIn: i % 3} })
 	leakScenario(res, "read-first+blocked-write", "", true, func(i int) carrierScript {
